@@ -135,6 +135,12 @@ def judge_c11(d):
         return "decoded requests differ from the 7.3 records of the concatenated stream (expected %s)" % model[:200]
     if t[1] in ("responded", "encreply"):
         return "reply/error matching or 7.4 encoding differs: expected %s" % model[:200]
+    if t[1] == "wire":
+        rec = unhex(t[2])
+        return ("7.3 record id=%d dest=%s seq=%d ttl=%d size=%d: the echo request seen on the wire by an independent raw socket is [%s], "
+                "the record asks for [%s] (TTL / hop limit, type, identifier, sequence number, data length)"
+                % (int.from_bytes(rec[0:2], "big"), rec[2:18].hex(), int.from_bytes(rec[18:20], "big"), rec[20],
+                   int.from_bytes(rec[21:23], "big"), impl, model))
     if t[1] == "table":
         ops = q.split("ops=")[1].split(";")
         io, mo = impl.split(" | "), model.split(" | ")
@@ -609,6 +615,9 @@ PROPS = {
              "(compared as maximal blocked intervals with the table the theorems are about), on every value of the first "
              "(resp. second) hextet for fixed remaining hextets (structural IPv6 classes), and TcpForwarder::connect run with "
              "scripted resolver answers (all lists of length <= 1, sampled/all pairs, random longer) x allow x ipv6_available; "
+             "every pool address also as a host name whose text is the IP literal (plain and bracketed; the form a port-less "
+             "`GET http://127.0.0.1/` or an authority the socket-address parser rejects takes), through the real resolver call; "
+             "canary listeners on this machine's non-global addresses that no spelling, literal or as a name, may reach; "
              "a case is non-trivial/distinct by its query line",
         explanation="theorems v4_exact, v6_unicast_exact, v6_mapped_exact, connect_only_global, global_*_never_refused about "
                     "TT/Model/Ip.lean; model tied to lib/src/net_utils.rs + tcp_forwarder.rs by exhaustive/differential runs",
@@ -645,16 +654,20 @@ PROPS = {
              "127.0.0.1 (the kernel answers), injected echo replies with the same / shorter / longer / other data / other id, "
              "injected ICMP errors (types 3, 11, 12) quoting a request, clock advances around the request timeout, and reads of "
              "each client's queue (capacity 3), compared with the waiter-table model"
+             " On the wire: 7.3 records with TTLs {1, 2, 7, 63, 64, 65, 128, 200, 255} (thorough: all of 1..255) to 127.0.0.1 and to this "
+             "machine's own global / ULA IPv6 address (from /proc/net/if_inet6; noted when there is none) through the real decoder, "
+             "IcmpSink::write and raw sockets; an independent raw socket reads the echo request with the TTL of its IPv4 header / "
+             "its hop limit (IPV6_RECVHOPLIMIT), type, identifier, sequence number and data length, compared with `outgoing` of the model"
              " Live over HTTP/3 (suite c11h3, where raw sockets are permitted): two clients CONNECT _icmp through the real QUIC listener "
              "and ping 127.0.0.1 with their own identifiers (6, thorough 20, requests each, records split across writes, 4 data sizes): "
              "each must get exactly one 22-byte 7.4 record per request (source 127.0.0.1, type 0, code 0, its id and sequence number) "
              "and none of the other client's",
-        explanation="theorems checksum_verifies (all payloads <= 65535 bytes), request_decode_segmentation, request_fields_faithful, "
+        explanation="theorems checksum_verifies (all payloads <= 65535 bytes), request_decode_segmentation, request_fields_faithful, request_leaves_as_requested, "
                     "*_no_panic, v4_error_designates, reply_format, waiter-table invariants",
         trusted=["ICMPv6 checksum is computed by the kernel for raw ICMPv6 sockets (not modelled)",
                  "waiter table: HashMap lookup with the prefix-tolerant Echo::eq is modelled as first match in insertion order; the "
                  "suite keeps (identifier, sequence) pairs distinct except for empty-data requests (where the entry is replaced)",
-                 "ICMPv6 is not driven by the live suite (ipv6_available = false)"],
+                 "ICMPv6 replies are not driven by the waiter-table suite (ipv6_available = false there); the ICMPv6 request path is, by the on-the-wire block"],
         assumptions=["two clients using the same identifier/sequence number with prefix-equal data share one waiter key "
                      "(Echo::eq); theorems about delivery are stated per matching waiter"],
     ),
@@ -862,7 +875,8 @@ PROPS = {
         level="proof",
         rule="15 valid request heads (CONNECT authority-form, absolute-URI GET, origin-form POST, 32 headers, exactly 1024 bytes, random) x "
              "payloads {empty, 1, 40, 300 bytes} under: whole, 1-cuts (every position in thorough), cuts around the end of the head, "
-             "byte-at-a-time, random 2-/3-cuts; near-miss invalid heads (bad version, 33 headers, endless head in 100-byte reads, ...) "
+             "byte-at-a-time, random 2-/3-cuts; payloads pipelined with the head that fill the 1 KiB head buffer (one byte short of it, "
+             "exactly, one byte over, 1500, 3000, 9000 bytes) whole, cut around the end of the head and around byte 1024, random 2-4-cuts; near-miss invalid heads (bad version, 33 headers, endless head in 100-byte reads, ...) "
              "and truncated heads; every session runs the real Http1Codec over an in-memory transport, answers 200 and relays download "
              "bytes; a watchdog detects sessions that stop making progress (busy loop)"
              " Plus 32 CONNECT sessions whose payload (0, 10, 4096, 70000 bytes), end of stream and (in half of them) the drop of the "
@@ -877,7 +891,7 @@ PROPS = {
     ),
     "C09": dict(
         retry_on_failure=True,
-        suites=["c09", "c09live"],
+        suites=["c09", "c09live", "c09origin"],
         judge=judge_c09,
         level="proof",
         exhaustive=True,
@@ -895,12 +909,20 @@ PROPS = {
              "varints beyond the datagram), short headers with unknown ids, random datagrams, the address-validation token of a real second "
              "Initial cut to every length / extended / altered under fresh connection ids - and 180 (720) TCP connections with "
              "garbage, truncated, mutated or over-long first records, half of them abandoned; after every batch a fresh HTTP/3 session "
-             "and a fresh TLS connection must still be served (a panic in a listener task would end Core::listen)",
+             "and a fresh TLS connection must still be served (a panic in a listener task would end Core::listen)"
+             " Hostile origins (suite c09origin): 900 (thorough 6000) origin byte streams of a plain-HTTP forwarding - more bytes than "
+             "the Content-Length announces, bodies on 204 / 304 / HEAD / Content-Length: 0 responses, bytes after the last chunk, broken "
+             "and overflowing chunk sizes, conflicting / negative / huge Content-Length, up to 200 interim responses, heads of up to 3000 "
+             "lines that never end, non-HTTP bytes - x 4 segmentations x 4 client acceptance patterns x HTTP/1.1, 2, 3 clients through the "
+             "real into_forwarded source / sink and the real DuplexPipe under virtual time, each run watched by a 20 s wall-clock watchdog "
+             "(a stream whose input is re-offered forever keeps the idle timeout from firing): no panic, no busy loop, never more body "
+             "bytes delivered than the origin produced; the over-long and bodiless classes are also answered by the C17 model",
         explanation="theorems udp_stream_no_panic, udp_step_safe, icmp_request_decoder_safe, ip_header_skipping_safe, icmp_packets_safe, "
                     "client_hello_prebuffer_bounded, h1_head_bounded_and_progress, socks_udp_datagram_safe, socks_truncated_reply_is_error, "
                     "rules_malformed_safe (TT/Props/C09.lean, built on the C04/C06/C08/C11/C12/C15 theorems)",
         trusted=["third-party parsers run as black boxes under catch_unwind only: httparse, tls-parser, toml_edit, ipnet, hex, base64",
-                 "the origin-response parser of http_forwarded_stream.rs is covered by C17, not here",
+                 "the origin-response parser of http_forwarded_stream.rs is modelled under C17 (TT/Model/Fwd.lean); here its hostile-input classes are "
+                 "run for panics / busy loops / amplification, and only the well-framed-but-over-long ones are compared with that model",
                  "QUIC packet parsing and the QUIC / TLS state machines are quiche's and BoringSSL's: the live suite only shows that the "
                  "endpoint's own handling around them (header dispatch, retry tokens, version negotiation, connection table) survives what "
                  "it was sent",
